@@ -81,9 +81,10 @@ def history_case(case):
             import time
             time.sleep(0.1)
             rc = dm.stop()
-            if not ok or rc is not None:
+            incomplete = (not ok) or rc is not None
+            if incomplete:
+                # what the phase did report is judged all the same (a success followed by a daemon that no longer renews is a finding, not noise)
                 res['infra'] = 'phase %d did not complete (rc=%s): %s' % (pi, rc, dm.stderr_text()[-300:])
-                break
             hooks = C.read_jsonl(d + '/hooks.log')[mark:]
             log = ca.log()[log_mark:]
             orders = {}
@@ -150,6 +151,8 @@ def history_case(case):
                             pi, size, fsize, prev_acc_size)))
                     prev_acc_size = size
                 shutil.rmtree(fresh, ignore_errors=True)
+            if incomplete:
+                break
         if res['problems']:
             res['replay_dir'] = d
         return res
@@ -343,7 +346,8 @@ def run(tier):
             if phases[-1]['kp_reuse'] and len(phases) > 1 and i % 4 not in (0, 1):
                 phases[-1]['key_type'] = phases[-2]['key_type']      # usually the same key type; otherwise a loadable key of another type is reused
             if p and i % 5 == 3:
-                phases[-1]['bad_first_download'] = r.choice(['truncated', 'garbage', 'html', 'truncated-tail'])
+                r.choice([0, 1, 2, 3])
+                phases[-1]['bad_first_download'] = ['truncated-tail', 'garbage', 'html', 'truncated'][(i // 5 + p) % 4]
         styles = ['canonical', 'blank-lines', 'crlf', 'no-final-newline', 'text-around', 'wrap76']
         r.shuffle(styles)
         names = [None, None, {'fmt': '{{ name }}.{{ ext }}', 'cert_ext': 'crt', 'pk_ext': 'key'}, {'fmt': '{{ name }}.{{ file_type }}.{{ ext }}', 'cert_ext': 'cer', 'pk_ext': None},
